@@ -276,7 +276,15 @@ def rule_cl_exit(cx, rep, port='py'):
             rep.holds('{}: argument errors'.format(entry), m, '{} error reports, each followed by sys.exit(1)'.format(n_ok))
         runs = [n for n in walk_no_nested(m) if isinstance(n, ast.If) and runner in node_text(n.test)]
         ok = len(runs) == 1 and isinstance(runs[0].test, ast.UnaryOp) and isinstance(runs[0].test.op, ast.Not) and 'sys.exit(1)' in node_text(runs[0].body[0]) and 'is_interactive=False' in node_text(runs[0].test)
-        rep.decide(ok, '{}: query failure'.format(entry), runs[0] if runs else m, 'a failed query exits with status 1, a successful one falls through (status 0)', '{} does not exit non-zero exactly when the query failed'.format(entry))
+        calls_runner = [c for c in walk_no_nested(m) if isinstance(c, ast.Call) and (dotted(c.func) or '').split('.')[-1] == runner]
+        if ok:
+            rep.holds('{}: query failure'.format(entry), runs[0], 'a failed query exits with status 1, a successful one falls through (status 0)')
+        elif len(runs) == 1 and 'sys.exit' not in node_text(runs[0], 2000):
+            rep.violated('{}: query failure'.format(entry), runs[0], '{} does not exit non-zero exactly when the query failed'.format(entry))
+        elif calls_runner and all(isinstance(getattr(c, 'parent', None), ast.Expr) for c in calls_runner):
+            rep.violated('{}: query failure'.format(entry), calls_runner[0], '{} drops the verdict of {}: a failed query ends with exit status 0'.format(entry, runner))
+        else:
+            rep.undecided('{}: query failure'.format(entry), runs[0] if runs else m, 'how {} turns the verdict of {} into the exit status was not recognised'.format(entry, runner))
         exits0 = [c for c in walk_no_nested(m) if isinstance(c, ast.Call) and dotted(c.func) == 'sys.exit' and (not c.args or (isinstance(c.args[0], ast.Constant) and c.args[0].value in (0, None)))]
         rep.decide(not exits0, '{}: zero exits'.format(entry), exits0[0] if exits0 else m, 'no sys.exit(0) on error paths', '{} calls sys.exit with a zero/empty status'.format(entry))
     # error taxonomy map total over the three classes
